@@ -50,7 +50,7 @@ RSqrt(q) ==
      ELSE <<0, 0>>
   ELSE <<0, 0>>
 Bad == <<0, 0>>      \* not a rational (denominator 0): marks an irrational modulus
-CAbsQ(a) == RSqrt(CAbs2Q(a))
+CAbsQ(a) == IF a[2] = RInt(0) THEN RAbs(a[1]) ELSE IF a[1] = RInt(0) THEN RAbs(a[2]) ELSE RSqrt(CAbs2Q(a))   \* real / imaginary numbers need no square root
 VAdd(u, v) == TLCEval([i \in 1..Len(u) |-> CAddQ(u[i], v[i])])
 VSub(u, v) == TLCEval([i \in 1..Len(u) |-> CSubQ(u[i], v[i])])
 VScale(q, u) == TLCEval([i \in 1..Len(u) |-> CScale(q, u[i])])
